@@ -119,3 +119,13 @@ Proof. reflexivity. Qed.
 Lemma peer_ids_ok : peer_literals_with_id =
   ["server/core/region_option.go: WithLearners: each#v(learners).GetId()"; "server/schedule/filter/filters.go: createRegionForRuleFit: each#v(peers).Id"; "server/schedule/operator/builder.go: DemoteVoter: (b.targetPeers[storeID])#0.GetId()"; "server/schedule/operator/builder.go: PromoteLearner: (b.targetPeers[storeID])#0.GetId()"; "server/schedule/operator/builder.go: buildStepsWithJointConsensus: (b.toAdd[each#v(b.toAdd.IDs())]).GetId()"; "server/schedule/operator/builder.go: buildStepsWithJointConsensus: (b.toRemove[each#v(b.toRemove.IDs())]).GetId()"; "server/schedule/operator/builder.go: prepareBuild: (b.cluster.AllocID())#0"; "server/schedule/operator/builder.go: prepareBuild: each#v(b.originPeers).GetId()"; "server/schedule/operator/step.go: GetRequest: each#v(cpe.DemoteVoters).PeerID"; "server/schedule/operator/step.go: GetRequest: each#v(cpe.PromoteLearners).PeerID"; "server/schedule/operator_controller.go: addLearnerNode: id"; "server/schedule/operator_controller.go: addNode: id"].
 Proof. reflexivity. Qed.
+
+(* who may build on a region that is in a joint state: only the two leader-transfer helpers and the leave-joint helper name
+   the option SkipOriginJointStateCheck, and no helper of create_operator.go lets its caller pass builder options.  The
+   planner (prepareBuild and both build paths) is written for - and proved on - origins without IncomingVoter /
+   DemotingVoter peers; an admin or recovery entry point that hands it a joint origin is a new way into the planner *)
+Lemma skip_joint_check_sites_ok : skip_joint_check_sites =
+  ["server/schedule/operator/create_operator.go:CreateForceTransferLeaderOperator"; "server/schedule/operator/create_operator.go:CreateLeaveJointStateOperator"; "server/schedule/operator/create_operator.go:CreateTransferLeaderOperator"].
+Proof. reflexivity. Qed.
+Lemma helpers_taking_builder_options_ok : helpers_taking_builder_options = [].
+Proof. reflexivity. Qed.
